@@ -10,10 +10,13 @@ def run(ctx):
     ctx.assumptions += ["model = coq/Model/Broker.v version V1 (hand written); critical sections atomic; timers may fire at any step",
                         "tie = scenario correspondence (forced-order scripts replayed in the extracted model) + property predicates on herds",
                         "matching pool relational in Model/Broker.v; the array SnowflakeHeap machine (Model/BrokerImpl.v) is proved to refine it and replays every forced-order scenario (`broker irun`); Go scheduler/timers not verified",
-                        "bridge list: re-installation at any step is a label of the model (L_Install); the default-bridge rule is applied by the model (fp_of)"]
+                        "bridge list: re-installation at any step is a label of the model (L_Install); the default-bridge rule is applied by the model (fp_of)",
+                        "bridge-list FILE loader modelled at JSON-value level (Model/BrokerBridgeList.v): line splitting, JSON tokenising, case folding and the 20-byte hex test of fingerprints are done by the glue (brokerlib.bridge_file_cases) and cross-checked against the text with Python's json; member names are matched exactly (encoding/json also accepts other letter cases: not generated)"]
     ctx.trusted.append("harness/overlay/broker/zz_verif_broker_test.go scenario driver; lib/checks/brokerlib.py label derivation")
     scens = brokerlib.scenarios(ctx.rng, ctx.tier)
     brokerlib.run_scenarios(ctx, scens, {CID}, "broker-scenarios")
+    # bridge-list FILES through the real line loader and through Model/BrokerBridgeList.v load
+    brokerlib.run_bridge_files(ctx)
 
 
 def replay(ctx, doc):
